@@ -318,8 +318,18 @@ func checkC11(t *testing.T, env core.Env, rep *core.Report) {
 		}
 	}
 	long := [][]string{{"a", "b", "dup-a"}, {"a", "forbidden", "b"}, {"fail-c", "a", "b"}, {"a", "dup-a", "b"}, {"b", "a", "b"}}
+	if env.Tier == "thorough" {
+		// every history of length 3, all schedules (memoised) - until the deadline
+		for _, x := range syms {
+			for _, y := range syms {
+				for _, z := range syms {
+					hists = append(hists, []string{x, y, z})
+				}
+			}
+		}
+	}
 	beh := []string{"ok", "error", "hang"}
-	rep.Bound = "[all histories of length 1-2 over {a, b(child of a), dup-a, forbidden, fail-c} x all 27 per-channel behaviours {ok,error,never returns}: all schedules (memoised on global state); 5 histories of length 3 x 27 behaviours: preemption bound 1; 40 new headers x one channel never returning: one schedule each]"
+	rep.Bound = "[all histories of length 1-2 over {a, b(child of a), dup-a, forbidden, fail-c} x all 27 per-channel behaviours {ok,error,never returns}: all schedules (memoised on global state); 5 histories of length 3 x 27 behaviours: preemption bound 1; 40 new headers x one channel never returning: one schedule each; thorough: additionally all 125 histories of length 3 x 27 behaviours, all schedules]"
 	idx := 0
 	var evals int64
 	for hi, h := range append(hists, long...) {
